@@ -1,11 +1,14 @@
 //! C18 — introspection is consistent and matches the schema actually served.
 //!
 //! Case:   (case FLAVOUR DESC TOKEN)
-//!   FLAVOUR  family | vis | dyn
+//!   FLAVOUR  family | vis | zoo | dyn
 //!   DESC     rich abstract description of the schema (types with descriptions, deprecations,
 //!            default-value texts, visibility rules); for `family`/`vis` it is read back from the
 //!            SDL export of the real schema (plus, for `vis`, the table of visibility rules written
-//!            next to the derive attributes below); for `dyn` it is generated and the dynamic
+//!            next to the derive attributes below); for `zoo` (the declaration zoo of src/zoo.rs) it
+//!            is the description written by hand next to the declarations, never read back from
+//!            the registry (`iv` / `fd` nodes of container declarations end with the declared Rust
+//!            type); for `dyn` it is generated and the dynamic
 //!            schema is BUILT from it inside `run`.
 //!   TOKEN    the request-context token: visibility rule `(bit k)` holds iff bit k of TOKEN is set.
 //! Output: (out SDLDESC FULL PROBES)
@@ -24,6 +27,8 @@
 
 #[path = "../family.rs"]
 mod family;
+#[path = "../zoo.rs"]
+mod zoo;
 
 use agvh::*;
 use async_graphql::parser::{parse_schema, types as pt};
@@ -1147,7 +1152,7 @@ fn canon_type(t: &mut AValue) {
 }
 
 fn exec<S>(schema: &S, q: String, vars: Option<bool>, tok: u32, run: impl Fn(&S, async_graphql::Request) -> async_graphql::Response) -> AValue {
-    let mut req = async_graphql::Request::new(q).data(vs::Tok(tok));
+    let mut req = async_graphql::Request::new(q).data(vs::Tok(tok)).data(zoo::Tok(tok));
     if let Some(d) = vars {
         let mut v = async_graphql::Variables::default();
         v.insert(Name::new("dep"), AValue::Boolean(d));
@@ -1206,6 +1211,19 @@ fn gen_case(rng: &mut Rng, i: usize, _o: &Opts, dist: &mut Dist) -> Sexp {
         dist.hit("flavour_family");
         let tok = rng.below(4) as u32;
         FAMILY_DESC.with(|d| node("case", vec![atom("family"), d.to_sexp(), num(tok)]))
+    } else if i == 1 || r < 12 {
+        // the declaration zoo (src/zoo.rs): the description is the one written by hand next to the
+        // declarations, never read back from the registry
+        dist.hit("flavour_zoo");
+        let tok = match rng.below(8) {
+            0 => (1u32 << zoo::ZOO_BITS) - 1,
+            1 => 0,
+            2 => 1 << rng.below(zoo::ZOO_BITS as usize),
+            3 => ((1u32 << zoo::ZOO_BITS) - 1) ^ (1 << rng.below(zoo::ZOO_BITS as usize)),
+            _ => rng.below(1 << zoo::ZOO_BITS) as u32,
+        };
+        dist.add("zoo_bits_set", tok.count_ones() as u64);
+        node("case", vec![atom("zoo"), zoo::wire::c18(&zoo::declared(true)), num(tok)])
     } else if r < 45 {
         dist.hit("flavour_vis");
         // all-visible and nothing-visible contexts are drawn more often than their share
@@ -1254,6 +1272,11 @@ fn run(case: &Sexp, _dist: &mut Dist) -> Sexp {
         }
         "vis" => {
             let s = vs::build();
+            let sdl = s.sdl_with_options(async_graphql::SDLExportOptions::new().include_specified_by());
+            observe(&s, sdl, &d, tok, |s, req| spin_on(s.execute(req)))
+        }
+        "zoo" => {
+            let s = zoo::build();
             let sdl = s.sdl_with_options(async_graphql::SDLExportOptions::new().include_specified_by());
             observe(&s, sdl, &d, tok, |s, req| spin_on(s.execute(req)))
         }
